@@ -50,7 +50,8 @@ const (
 	FeatCrash          = 8  // C05 / C11 hub: process crash and restart disturbances
 	FeatLateRun        = 16 // SHIP2 / hub rig: Run() of a connection delayed after its creation (reader already active)
 	FeatWithdrawInDial = 32 // C01 hub: the stored pairing is withdrawn while the hub's own dial is in flight
-	FeatAll            = 63
+	FeatAppInCallback  = 64 // C18: the application works (sleeps, approves the pairing) inside ServicePairingDetailUpdate
+	FeatAll            = 127
 )
 
 // Feat reports whether the run uses harness feature bit.
